@@ -207,9 +207,57 @@ def T():
     return t
 
 
+def T_blockends():
+    """Blocks ending in each statement kind (C05: a finished block contributes exactly one value)."""
+    t = []
+
+    def add(name):
+        def deco(f):
+            t.append((name, f))
+            return f
+        return deco
+
+    @add("call-ends-assign")
+    def _(h, i): return [("rec", i.id(), ("call", None, [i.m()] + h + [("assign", "_a%d" % i.id(), 1)]))]
+
+    @add("call-ends-private-assign")
+    def _(h, i): return [("rec", i.id(), ("call", None, h + [("passign", "_a%d" % i.id(), 1)]))]
+
+    @add("call-two-assign")
+    def _(h, i): return [("rec", i.id(), ("call", None, [("assign", "_a%d" % i.id(), 1)] + h + [("assign", "_b%d" % i.id(), 2)]))]
+
+    @add("call-empty")
+    def _(h, i): return [("rec", i.id(), ("call", None, h))]
+
+    @add("call-ends-nil")
+    def _(h, i): return [("rec", i.id(), ("call", None, h + [("lit", None)]))]
+
+    @add("then-ends-assign")
+    def _(h, i): return [("rec", i.id(), ("if", True, h + [("assign", "_a%d" % i.id(), 1)], None))]
+
+    @add("exitwith-ends-assign")
+    def _(h, i): return [("rec", i.id(), ("call", None, [("exitwith", True, h + [("assign", "_a%d" % i.id(), 1)]), i.m()]))]
+
+    @add("catch-ends-assign")
+    def _(h, i): return [("rec", i.id(), ("try", [("throw", 1)], h + [("assign", "_a%d" % i.id(), 1)]))]
+
+    @add("switch-case-ends-assign")
+    def _(h, i): return [("rec", i.id(), ("switch", 1, [(1, h + [("assign", "_a%d" % i.id(), 1)])], None))]
+
+    @add("foreach-ends-assign")
+    def _(h, i): return [("foreach", [1, 2], h + [("assign", "_a%d" % i.id(), 1)]), i.m()]
+
+    @add("try-throw-with-pending")
+    def _(h, i): return [("rec", i.id(), ("try", [("arr", [("lit", 1), ("lit", 2), ("call", None, [("throw", 3)])])], [("recx", i.id(), ["_exception"])] + h))]
+
+    return t
+
+
 TEMPLATES = T()
+BLOCKEND_TEMPLATES = T_blockends()
 TNAMES = [n for n, _ in TEMPLATES]
-TBY = dict(TEMPLATES)
+TBY = dict(TEMPLATES + BLOCKEND_TEMPLATES)
+BNAMES = [n for n, _ in BLOCKEND_TEMPLATES]
 
 
 def build(names):
@@ -248,7 +296,8 @@ def subst(x, ph, inner):
     return x
 
 
-def chains(depth):
+def chains(depth, names=None):
+    names = names or TNAMES
     for d in range(1, depth + 1):
-        for c in itertools.product(TNAMES, repeat=d):
+        for c in itertools.product(names, repeat=d):
             yield list(c)
